@@ -329,6 +329,33 @@ def handleParseOpts (j : Json) : Except String Json := do
       | some ps => Json.arr (ps.map fun p => Json.arr #[S p.1, S p.2]).toArray
       | none => Json.null).toArray)]
 
+def parseSpecInfo (j : Json) (base : Nat) : Except String Grain.SpecInfo := do
+  let alias ← (← j.getObjVal? "alias").getStr?
+  let e ← (← j.getObjVal? "electron").getBool?
+  let c ← (← j.getObjVal? "charged").getBool?
+  let t ← (← j.getObjVal? "tunnel").getBool?
+  pure ⟨base, base + 1, base + 2, alias.toList, e, c, t⟩
+
+def handleGrainRate (j : Json) : Except String Json := do
+  let md ← match (← (← j.getObjVal? "model").getStr?) with
+    | "base" => pure Grain.Model.base | "hh93" => pure .hh93 | "hh93i" => pure .hh93i | "rr07" => pure .rr07 | "rr07x" => pure .rr07x
+    | m => throw s!"unknown model {m}"
+  let ty ← match (← (← j.getObjVal? "type").getNat?) with
+    | 200 => pure Grain.GType.freeze | 201 => pure .thermal | 202 => pure .cosmicray | 203 => pure .photon | 204 => pure .reactive
+    | 210 => pure .h2des | 220 => pure .recombine | 221 => pure .ecapture | 300 => pure .surface
+    | t => throw s!"unknown type {t}"
+  let g ← (← j.getObjVal? "group").getStr?
+  let sy ← j.getObjVal? "syms"
+  let S := fun (k : String) => do (← sy.getObjVal? k).getStr?
+  let rs : Grain.ReacSyms := { tgas := ← S "tgas", tdust := ← S "tdust", zeta := ← S "zeta", zism := ← S "zism", g0 := ← S "g0",
+                               av := ← S "av", h2form := ← S "h2form" }
+  let a ← parseLit (← j.getObjVal? "a") 0
+  let s1 ← parseSpecInfo (← j.getObjVal? "s1") 10
+  let s2 ← parseSpecInfo (← j.getObjVal? "s2") 20
+  match Grain.grainText md ty g rs a s1 s2 with
+  | .ok txt => pure <| Json.mkObj [("text", chJson txt), ("parses", (CE.parseC txt).isSome)]
+  | .notImplemented => pure <| Json.mkObj [("error_kind", "NotImplementedError")]
+
 def handle (line : String) : String :=
   match Json.parse line with
   | .error e => (Json.mkObj [("error", s!"json: {e}")]).compress
@@ -348,6 +375,7 @@ def handle (line : String) : String :=
       | "symverdict" => handleSymVerdict j
       | "ftoc" => handleFtoC j
       | "parseopts" => handleParseOpts j
+      | "grainrate" => handleGrainRate j
       | "dexp" => handleDExp j
       | "encode_native" => handleEncodeNative j
       | "kromebound" => handleKrome j
